@@ -20,6 +20,7 @@ EXPLANATION = (
     "start_value, the stored state value, State.value) are never used in a boolean context in the state-handling modules - "
     "only `is None` / `is not None` tests; `is_active` compares states, not names. Behaviour with exotic model descriptors "
     "is not decided."
+    " Added after seeded batch 9: state values are only hashed and compared for equality in the accessors and in InvalidStateValue (no sorted/min/max/< over them), and add_state refuses a second state under a value already mapped (F40)."
 )
 ASSUMPTIONS = ["getattr/setattr on the user's model behave as attribute access (properties included)"]
 TRUSTED = ["/verif/sa path enumerator and resolver"]
